@@ -163,6 +163,13 @@ impl W {
         })
     }
 
+    /// `truncate_to_chain_state` with the harness chain's state as of block `h` (precise rewind)
+    pub fn truncate_cs(&mut self, chain: &Chain, h: u32) -> Result<Result<u32, String>, String> {
+        let state = chain.state_at(h);
+        let st = &mut self.st;
+        guarded(move || st.wallet_mut().truncate_to_chain_state(state).map(|_| h).map_err(|e| format!("{e:?}")))
+    }
+
     pub fn tip(&self) -> Option<u32> {
         self.st.wallet().chain_height().unwrap().map(u32::from)
     }
